@@ -262,6 +262,7 @@ theorem slot_of_argParser (k : ArgKind) (hk : kindSafe k = true) (res : Res)
   | d o c => exact h.2 rfl
   | v => exact h
   | vd o c => exact h
+  | m0 => exact h
 
 /-- the node built by a call parser from the result of its arguments parser -/
 theorem callArgs_ok7 {k : Kind} {name : Str} {a : ArgsP} (hs : SpecOk db k name a)
